@@ -625,6 +625,61 @@ def g_zero_limbs(F, rng, tier):
     return out
 
 
+def g_sparse_bigmant(F, rng, n, exps=(135, 140, 160, 271, 290)):
+    """G22: long INTEGER inputs whose big integer has a run of ZERO LIMBS between non-zero ones (A x 2^(64 k) + small)
+    multiplied by a large power of ten, and that reach the big-integer path (the 19-digit prefix w and w+1 round
+    differently: found by exact search, ~1 candidate in 400).  The multiplier's zero limbs are skipped by the long
+    multiplication, so the partial sums grow in jumps: resize / set_len / offset bookkeeping is exercised where
+    dense operands never go."""
+    out = []
+    tries = 0
+    while len(out) < n and tries < 400000:
+        tries += 1
+        k = rng.choice([2, 6, 7, 7, 8])              # the gap must exceed the length of the first partial product (5^135: 5..6 limbs)
+        e10 = rng.choice(exps)
+        a = rng.getrandbits(rng.choice([40, 64, 100]))
+        if a == 0:
+            continue
+        N = (a << (64 * k)) + rng.choice([1, 3, 1 << 63, rng.getrandbits(64) | 1])
+        ds = str(N)
+        if len(ds) + e10 > F.p10_hi + 1 or len(ds) < 21:
+            continue
+        w = int(ds[:19])
+        kk = e10 + len(ds) - 19
+        lo = float_below(F, w * 10 ** kk, 1)
+        if lo >= F.infbits - 1:
+            continue
+        M, ke = F.midpoint(lo)
+        mid_num, mid_den = (M << ke, 1) if ke >= 0 else (M, 1 << (-ke))
+        if w * 10 ** kk * mid_den < mid_num <= (w + 1) * 10 ** kk * mid_den:
+            out.append(mk(F.name, ds, "", e10, "G22:sparse-bigmant"))
+    return out
+
+
+def pow5_thresholds(F, rng):
+    """(w, q), 0 <= q <= 27, with w next to floor(2^k / 5^q) for k = p .. 66 (w > 2^p so that the fast path declines,
+    w < 10^19): the inputs for which w x 5^q sits at a power of two - where an "exact integer product" shortcut, a
+    64-bit overflow test or a leading-zero budget is off by one.  Also a few w spread over each such interval."""
+    out = []
+    for q in range(0, 28):
+        f5 = 5 ** q
+        for k in range(F.p, 67):
+            t = (1 << k) // f5
+            cands = [t - 1, t, t + 1, t + rng.randrange(1, max(2, t // 8)), t + t // 3, t + t // 2]
+            for w in cands:
+                if (1 << F.p) < w < 10 ** 19:
+                    out.append((w, q))
+    return out
+
+
+def g_pow5_thresholds(F, rng, tier):
+    """G23: the (w, q) above as parse inputs (`w e q`)"""
+    out = []
+    for (w, q) in pow5_thresholds(F, rng):
+        out.append(mk(F.name, str(w), "", q, "G23:pow5-threshold"))
+    return out[:: 2 if tier == "quick" else 1]
+
+
 def g_floats_exact(F, rng, n):
     """exactly representable values (the float itself, not the midpoint)"""
     out = []
